@@ -928,10 +928,11 @@ impl LineBuffer {
     }
 
     /// Where `Movement::ViFirstPrint` (vi `^`) ends: the first non-blank
-    /// character when the buffer starts with blanks, its start otherwise.
+    /// character when the buffer starts with blanks (its start when the
+    /// motion finds nowhere to go from there), its start otherwise.
     fn vi_first_print_pos(&self) -> Option<usize> {
         if self.buf.starts_with(char::is_whitespace) {
-            self.next_word_pos(0, At::Start, Word::Big, 1)
+            self.next_word_pos(0, At::Start, Word::Big, 1).or(Some(0))
         } else {
             Some(0)
         }
